@@ -318,7 +318,8 @@ func c18GenTemplate(r *rand.Rand, names []string) ([]c18Token, bool) {
 			nm := names[r.Intn(len(names))]
 			toks = append(toks, c18Token{text: "${" + nm + "}", class: "var", name: nm})
 		case x < 11:
-			nm := []string{"unknown", "job.unknown", "task.nope", "option.missing", "jobconfig.zzz", "jobs.name", "optional.a", "JOB.name", "job", "task."}[r.Intn(10)]
+			nm := []string{"unknown", "job.unknown", "task.nope", "option.missing", "jobconfig.zzz", "jobs.name", "optional.a", "JOB.name", "job", "task.",
+				"option.user-name", "task.index_matrix.some-key", "job.x-y", "option.image-tag", "jobconfig.a.b-c"}[r.Intn(15)]
 			toks = append(toks, c18Token{text: "${" + nm + "}", class: "unk", name: nm})
 		default:
 			toks = append(toks, c18Token{text: malformed[r.Intn(len(malformed))], class: "malformed"})
@@ -463,6 +464,9 @@ func c18One(env *core.Env, res *core.Result, caseIdx int) {
 	for k := r.Intn(5); k > 0; k-- {
 		nm := names[r.Intn(len(names))]
 		explicit[nm] = "X<" + c18Vals[r.Intn(len(c18Vals))] + ">"
+		if r.Intn(5) == 0 {
+			explicit[nm] = "" // the submitter blanks the variable explicitly
+		}
 		overlap = append(overlap, strings.SplitN(nm, ".", 2)[0])
 	}
 	sort.Strings(overlap)
